@@ -101,4 +101,13 @@ def _():
     t=metapype_io.from_xml('<a>    \n</a>'); assert t.content is None, repr(t.content)
     t=metapype_io.from_xml('<a><b/>\xa0\n</a>'); assert t.children[0].tail is None
     t=metapype_io.from_xml('<a>  \xa0</a>'); assert t.content=='  \xa0'
+@w(20)
+def _():
+    assert not rule.Rule.is_uri('http://:80/') and not rule.Rule.is_uri('http://user@/x') and rule.Rule.is_uri('http://example.org/')
+@w(21)
+def _():
+    p=Node('p'); q=Node('q'); x=Node('a'); q.add_child(x); new=Node('a')
+    try: p.replace_child(x, new); assert False
+    except ValueError: pass
+    assert new.parent is None, 'a failed replace rewrote the parent link of the new child'
 for k,v in W.items(): print(k,v)
